@@ -37,6 +37,10 @@ CHECKS = {
    technique="deterministic simulation: seeded search over histories interleaving request arrivals (in and out of stream-id order), shutdown(n) calls at drawn moments and request completions on a real h3 server, and over received GOAWAY id sequences on a real h3 client; invariants over the recorded sequential history and the GOAWAY frames parsed from the wire by the reference codec",
    text="Server side: a real h3 server (accept / shutdown(n) loop built on the poll API accept() is made of, echo handlers) receives 1-6 requests whose arrival order is drawn (SimQuic may surface stream 8 before 4) while shutdown(n), n in 0..3, is called 0-3 times at drawn moments. Invariants over the accept task's sequential history and the control stream parsed by the reference codec: GOAWAY ids never increase and are request stream ids; when a GOAWAY(x) is written every stream already handed out has id < x; no stream with id >= an already sent GOAWAY id is handed out; handed-out streams are never reset with H3_REQUEST_REJECTED and are served to completion; rejected streams are reset and stop-sent with H3_REQUEST_REJECTED and lie at or above the last id sent; no arrived stream is ignored. Client side: GOAWAY id sequences (decreasing, equal, increasing, non-request ids, all varint forms): increasing or non-request id => H3_ID_ERROR as driver result and close code; otherwise every send_request begun after the driver processed the GOAWAY is refused as remote-closing and opens no stream. Sampling, not proof.",
    note="Trusted: checks/c08.rs invariants, refs codecs, SimQuic, simexec. accept() is spelled out with poll_accept_request_stream/create_resolver so that shutdown(n) can be interleaved without cancelling a future inside an internal write (accept() is not documented as cancel-safe; see DESIGN §7). Requests racing with the delivery of a GOAWAY are unconstrained."),
+ "C09": dict(level="exploration", engine="E1", design_ref="DESIGN.md §5 C09",
+   technique="deterministic simulation: seeded search over histories of 0-4 accepted requests with drawn endings (incl. early ends, drops, split halves, held handles), the peer's GOAWAY at a drawn position, all interleavings; reference drain model (handed out / ended / goaway seen) checked for safety over the event history and for bounded liveness at two exact quiescence points",
+   text="A real h3 server accepts 0-4 requests from a scripted client; each ends in a drawn way (normal, resolver dropped, FIN or RESET before HEADERS, RESET after HEADERS, malformed or oversized headers, halves dropped at different times, held or never-resolving until released) while the client's GOAWAY arrives at a drawn point. Handle lifetimes are tracked by drop guards. Safety: whenever accept() reports no more requests, every request handed out before has ended (checked over the ordered event log). Liveness: at exact quiescence, once the GOAWAY has been delivered and every handed-out request has ended, accept() must have reported no more requests - checked before and after the held requests are released. Sampling, not proof.",
+   note="Trusted: checks/c09.rs drain model and drop guards, SimQuic, simexec's quiescence detection. A request has ended when the application holds no handle of it any more."),
  "C14": dict(level="exploration", engine="E1", design_ref="DESIGN.md §5 C14",
    technique="deterministic simulation: seeded search over generated API-call programs, builder configurations and per-call write-acceptance/pend patterns of the transport; history check of the complete per-stream byte logs by a reference RFC 9114 parser",
    text="Generated programs (1-4 exchanges in both roles, empty and multi-chunk buffers, trailers, streams abandoned mid-body, split halves, server shutdown(n) and client shutdown at drawn moments, drawn builder options) run on real h3 endpoints over SimQuic, which accepts writes down to one byte at a time, splits frame headers, pends and withholds stream credit. Afterwards every byte either endpoint wrote on every stream is parsed with the reference codecs: legal uni stream types, SETTINGS first and only allowed frames on the control stream (never finished/reset), only complete HEADERS/DATA/reserved frames in legal order on request streams, length fields consistent, reserved identifiers of the 0x1f*N+0x21 form, no HTTP/2 types or settings, GOAWAY ids non-increasing, DATA payloads concatenating to exactly what send_data was given, HEADERS decoding to what was submitted, and no misuse of the transport traits (overlapping send_data). Sampling, not proof.",
